@@ -302,6 +302,25 @@ fn answers(
         let g = a.grounded();
         let und = g.iter().filter(|t| !t.is_truth_value()).count();
         let printed = format!("{}", a.print_interpretation(&g));
+        // the printed line names every statement once with its value, via both printing entry points
+        let printed2 = format!("{}", a.print_dictionary().print_interpretation(&g));
+        if printed2 != printed {
+            return Err(format!("print_dictionary().print_interpretation prints {printed2:?}, Adf::print_interpretation {printed:?}"));
+        }
+        let toks = crate::props::cli::parse_line_known(printed.trim_end_matches('\n'), labels)?;
+        if toks.len() != names.len() {
+            return Err(format!("print_interpretation lists {} statements of {}", toks.len(), names.len()));
+        }
+        for (pos, (nm, v)) in toks.iter().enumerate() {
+            if nm != &names[pos] || *v != sut::tv(g[pos]) {
+                return Err(format!(
+                    "print_interpretation prints {}({nm}) at position {pos}, the interpretation holds {:?} for {:?}",
+                    v.ch(),
+                    sut::tv(g[pos]),
+                    names[pos]
+                ));
+            }
+        }
         let mut list: Vec<Call> = vec![Call::Grounded];
         if und <= 16 {
             list.extend([Call::StableNg(0), Call::StableNg(1), Call::TwoValNg(2)]);
